@@ -35,6 +35,13 @@ def ctxName : StepCtx → String
   | .flush k => afterFlushName k
   | .drive _ o => outerName o
 
+/-- `disconnect_with`: a `flush_outbound` that fails ends the connection as well, whatever the error
+(`if let Err(err) = self.flush_outbound().await { self.handle_disconnect(); return Err(err) }`).
+For every other caller a failed flush just returns the error. -/
+def discFail (w : World) : StepCtx → World
+  | .flush (.discPre _) => w.handleDisconnect
+  | _ => w
+
 def opKindName : OpKind → String
   | .pub1 => "pub1"
   | .pub2 => "pub2"
@@ -179,7 +186,7 @@ def flushLoop : Nat → World → AfterFlush → World
   | 0, w, _ => w.emit "fuel"
   | fuel + 1, w, k =>
     match w.maybeQueuePingreq w.now with
-    | .error e => w.finishErr (afterFlushName k) e
+    | .error e => (w.discFail (.flush k)).finishErr (afterFlushName k) e
     | .ok w =>
       match w.sess.data.outbound.nextStep with
       | none => afterFlush fuel w k
@@ -190,13 +197,13 @@ def performStep : Nat → World → StepCtx → Outbound.Step → Nat → World
   | 0, w, _, _, _ => w.emit "fuel"
   | fuel + 1, w, ctx, step, now =>
     match prepareStep w step with
-    | .fail e => w.finishErr (ctxName ctx) e
+    | .fail e => (w.discFail ctx).finishErr (ctxName ctx) e
     | .done => stepReturned fuel w ctx false
     | .flush pkt =>
-      if !w.live then w.finishErr (ctxName ctx) .disconnected
+      if !w.live then (w.discFail ctx).finishErr (ctxName ctx) .disconnected
       else doStepFlush fuel w ctx pkt now
     | .write pkt bytes written len =>
-      if !w.live then w.finishErr (ctxName ctx) .disconnected
+      if !w.live then (w.discFail ctx).finishErr (ctxName ctx) .disconnected
       else doStepWrite fuel w ctx pkt bytes written len now
 
 /-- The `write` await of `perform_outbound_step`. -/
@@ -205,7 +212,7 @@ def doStepWrite : Nat → World → StepCtx → Flushed → Bytes → Nat → Na
   | fuel + 1, w, ctx, pkt, bytes, written, len, now =>
     match w.ioWrite (bytes.drop written) with
     | (w, .pending) => w.suspend (.stepWrite ctx pkt bytes written len now)
-    | (w, .zero) => w.finishErr (ctxName ctx) .writeZero
+    | (w, .zero) => (w.discFail ctx).finishErr (ctxName ctx) .writeZero
     | (w, .err k) => (w.handleDisconnect).finishErr (ctxName ctx) (.transport k)
     | (w, .ok count) =>
       let written := written + count
